@@ -96,7 +96,7 @@ func Run(r *ev.Run, scs []Scenario) {
 	// work whatever the machine load (the wall-clock budget stays as a safety net only).
 	for i := range scs {
 		if scs[i].MaxExec == 0 && scs[i].Group == "" {
-			scs[i].MaxExec = ev.Pick(r, int64(400000), int64(6000000))
+			scs[i].MaxExec = ev.Pick(r, int64(400000), int64(2000000))
 		}
 		if scs[i].Budget > 0 && !r.Thorough() {
 			scs[i].Budget = 10 * time.Minute
